@@ -141,3 +141,222 @@ pub fn seeds() -> Vec<(String, Vec<u8>)> {
     }
     v
 }
+
+/// Seeds for the readers that no fixture and none of the seeds above reach: embedded bitmaps (`CBLC`/`CBDT`,
+/// `EBLC`/`EBDT`: every index subtable format x every glyph image format allsorts knows), `morx` (every subtable type,
+/// every lookup table format), `SVG `, `STAT`, `name` format 1, `post` 2.0 with custom and standard names, `kern`
+/// with three subtables, `vhea`/`vmtx` (and `hmtx`) with fewer long metrics than glyphs. All are well-formed
+/// fonts below 4 KB (builders: `otmodel::bitmapenc`, written from the specifications).
+pub fn extra_seeds() -> Vec<(String, Vec<u8>)> {
+    use otmodel::bitmapenc as be;
+    use otmodel::bitmapenc::{AxisValue, BigMetrics, IndexSub, KernSub, Lookup, MorxChain, MorxSubtable, PostName, StateTable, Strike};
+    let mut v: Vec<(String, Vec<u8>)> = Vec::new();
+    let cm = [(0x41u32, 1u16), (0x42, 2), (0x1F600, 3), (0x25CC, 4), (0x20, 5)];
+    let n = 8u16;
+
+    // ---- embedded bitmaps
+    let sub = |index_format: u16, image_format: u16, first: u16, last: u16, big: BigMetrics, images: Vec<(u16, Vec<u8>)>| IndexSub { index_format, image_format, first_glyph: first, last_glyph: last, images, big_metrics: big };
+    let bitmap_font = |loc: &[u8; 4], dat: &[u8; 4], major: u16, strikes: &[Strike]| {
+        let (l, d) = be::build_bitmaps(major, strikes);
+        minimal_font(n, &cm, &[(tag(loc), l), (tag(dat), d)])
+    };
+    let png = |k: u16| be::fake_png(k as u8);
+    let sm = be::small_of(20, 18);
+    let bm = BigMetrics::of(20, 18);
+    // colour bitmaps: one font per index subtable format, covering image formats 17, 18, 19
+    let cblc: Vec<(&str, Vec<Strike>)> = vec![
+        ("cblc-index1-image17", vec![Strike::new(20, 32, vec![sub(1, 17, 1, 4, bm, [1u16, 2, 4].iter().map(|g| (*g, be::image17(&sm, &png(*g)))).collect())])]),
+        ("cblc-index2-image19", vec![Strike::new(20, 32, vec![sub(2, 19, 1, 3, bm, (1u16..=3).map(|g| (g, be::image19(&png(g)))).collect())])]),
+        ("cblc-index3-image18", vec![Strike::new(20, 32, vec![sub(3, 18, 2, 5, bm, [2u16, 3, 5].iter().map(|g| (*g, be::image18(&bm, &png(*g)))).collect())])]),
+        ("cblc-index4-image17", vec![Strike::new(20, 32, vec![sub(4, 17, 1, 6, bm, [1u16, 3, 6].iter().map(|g| (*g, be::image17(&sm, &png(*g)))).collect())])]),
+        ("cblc-index5-image19", vec![Strike::new(20, 32, vec![sub(5, 19, 1, 7, bm, [1u16, 4, 7].iter().map(|g| (*g, be::image19(&png(*g)))).collect())])]),
+        (
+            "cblc-two-strikes",
+            vec![
+                Strike::new(16, 32, vec![sub(1, 17, 1, 2, bm, (1u16..=2).map(|g| (g, be::image17(&sm, &png(g)))).collect()), sub(3, 18, 3, 5, bm, [3u16, 5].iter().map(|g| (*g, be::image18(&bm, &png(*g)))).collect())]),
+                Strike::new(32, 32, vec![sub(4, 18, 1, 3, bm, [1u16, 3].iter().map(|g| (*g, be::image18(&bm, &png(*g)))).collect()), sub(5, 19, 4, 7, bm, [4u16, 5, 7].iter().map(|g| (*g, be::image19(&png(*g)))).collect())]),
+            ],
+        ),
+    ];
+    for (name, strikes) in &cblc {
+        v.push((name.to_string(), bitmap_font(b"CBLC", b"CBDT", 3, strikes)));
+    }
+    // uncompressed images (formats 1, 2, 5, 6, 7) at every bit depth and component images (formats 8, 9); CBLC is a
+    // superset of EBLC, so these are valid under either pair of tags. The default image filter of `Font` consults CBLC.
+    let s3 = be::small_of(5, 7);
+    let b3 = BigMetrics::of(5, 7);
+    let b2 = BigMetrics::of(2, 2);
+    let legacy: Vec<(&str, Vec<Strike>)> = vec![
+        ("cblc-index1-image6+index3-image7-depth32", vec![Strike::new(12, 32, vec![sub(1, 6, 1, 3, b2, [1u16, 3].iter().map(|g| (*g, be::image6(&b2, 32))).collect()), sub(3, 7, 4, 5, b2, (4u16..=5).map(|g| (g, be::image7(&b2, 32))).collect())])]),
+        ("cblc-index1-image1-depth1", vec![Strike::new(12, 1, vec![sub(1, 1, 1, 4, b3, [1u16, 2, 4].iter().map(|g| (*g, be::image1(&s3, 1))).collect())])]),
+        ("cblc-index3-image2-depth2", vec![Strike::new(12, 2, vec![sub(3, 2, 1, 4, b3, [1u16, 2, 4].iter().map(|g| (*g, be::image2(&s3, 2))).collect())])]),
+        ("cblc-index2-image5-depth4", vec![Strike::new(12, 4, vec![sub(2, 5, 1, 3, b3, (1u16..=3).map(|g| (g, be::image5(&b3, 4))).collect())])]),
+        ("cblc-index4-image6-depth8", vec![Strike::new(12, 8, vec![sub(4, 6, 1, 6, b3, [1u16, 3, 6].iter().map(|g| (*g, be::image6(&b3, 8))).collect())])]),
+        ("cblc-index5-image5-depth1", vec![Strike::new(12, 1, vec![sub(5, 5, 1, 7, b3, [1u16, 4, 7].iter().map(|g| (*g, be::image5(&b3, 1))).collect())])]),
+        ("cblc-index1-image7-depth4", vec![Strike::new(12, 4, vec![sub(1, 7, 1, 2, b3, (1u16..=2).map(|g| (g, be::image7(&b3, 4))).collect())])]),
+        (
+            "cblc-components-image8-image9-depth1",
+            vec![Strike::new(12, 1, vec![sub(1, 1, 1, 2, b3, (1u16..=2).map(|g| (g, be::image1(&s3, 1))).collect()), sub(1, 8, 3, 3, b3, vec![(3, be::image8(&s3, &[(1, 0, 0), (2, 5, 0)]))]), sub(3, 9, 4, 5, b3, vec![(4, be::image9(&b3, &[(1, 0, 0), (3, 0, -7)])), (5, be::image9(&b3, &[(2, 1, 1)]))])])],
+        ),
+    ];
+    for (name, strikes) in &legacy {
+        v.push((name.to_string(), bitmap_font(b"CBLC", b"CBDT", 3, strikes)));
+    }
+    // the same structures as version 2 EBLC/EBDT (reached through GlyphTableFlags::EBDT)
+    v.push(("eblc-index2-image5+index3-image2-depth1".into(), bitmap_font(b"EBLC", b"EBDT", 2, &[Strike::new(12, 1, vec![sub(2, 5, 1, 3, b3, (1u16..=3).map(|g| (g, be::image5(&b3, 1))).collect()), sub(3, 2, 4, 6, b3, [4u16, 6].iter().map(|g| (*g, be::image2(&s3, 1))).collect())])])));
+    v.push((
+        "eblc-two-strikes-depth1-depth8".into(),
+        bitmap_font(
+            b"EBLC",
+            b"EBDT",
+            2,
+            &[
+                Strike::new(12, 1, vec![sub(1, 1, 1, 3, b3, [1u16, 3].iter().map(|g| (*g, be::image1(&s3, 1))).collect()), sub(4, 6, 4, 7, b3, [4u16, 7].iter().map(|g| (*g, be::image6(&b3, 1))).collect())]),
+                Strike::new(24, 8, vec![sub(5, 5, 1, 5, b3, [1u16, 2, 5].iter().map(|g| (*g, be::image5(&b3, 8))).collect()), sub(3, 9, 6, 7, b3, vec![(6, be::image9(&b3, &[(1, 0, 0), (2, 5, 0)]))])]),
+            ],
+        ),
+    ));
+
+    // ---- morx. Glyphs: 1 A, 2 V, 3 f, 4 i, 5 fi, 6 B, 7 A.alt, 8 space, 9 dotted circle, 10 acute, 11 V.alt
+    let mcm = [(0x41u32, 1u16), (0x56, 2), (0x66, 3), (0x69, 4), (0x42, 6), (0x20, 8), (0x25CC, 9), (0x301, 10)];
+    let mn = 12u16;
+    let st = |n_classes: u32, class_table: Lookup, states: Vec<Vec<u16>>| StateTable { n_classes, class_table, states };
+    let msub = |kind: u32, flags: u32, body: Vec<u8>, cov: Option<Vec<u16>>| MorxSubtable { coverage: kind, sub_feature_flags: flags, body, glyph_coverage: cov };
+    // a two-glyph machine: class 4 then class 5 (state 2 = "seen the first"); entries 0 = nothing, 1 = remember, 2 = act
+    let rows6 = vec![vec![0u16, 0, 0, 0, 1, 0], vec![0, 0, 0, 0, 1, 0], vec![0, 0, 0, 0, 1, 2]];
+    let rows7 = vec![vec![0u16, 0, 0, 0, 1, 0, 0], vec![0, 0, 0, 0, 1, 0, 0], vec![0, 0, 0, 0, 1, 2, 3]];
+    let ligature = |class_table: Lookup| {
+        // f (glyph 3) + i (glyph 4) -> fi (glyph 5): the stack is popped i first; component indices 0 (i) and 1 (f)
+        be::morx_ligature(
+            &st(6, class_table, rows6.clone()),
+            &[(0, 0, 0), (2, be::LIG_SET_COMPONENT, 0), (0, be::LIG_SET_COMPONENT | be::LIG_PERFORM_ACTION, 0)],
+            &[be::lig_action(0, 0 - 4), be::lig_action(be::LIG_ACTION_LAST, 1 - 3)],
+            &[0, 0],
+            &[5],
+        )
+    };
+    let contextual = |class_table: Lookup, subst: &[Lookup]| {
+        // A (class 4) is marked; a following V (class 5) replaces both; a following f (class 6) is re-examined in state 0
+        be::morx_contextual(&st(7, class_table, rows7.clone()), &[(0, 0, 0xFFFF, 0xFFFF), (2, 0x8000, 0xFFFF, 0xFFFF), (0, 0, 0, 1), (0, 0x4000, 0xFFFF, 0xFFFF)], subst)
+    };
+    let identity = |changes: &[(u16, u16)]| Lookup::Simple((0..mn).map(|g| changes.iter().find(|c| c.0 == g).map_or(g, |c| c.1)).collect());
+    let ligature_features = vec![(1u16, 2u16, 0x4u32, 0xFFFF_FFFFu32), (1, 3, 0, !0x4u32), (0, 1, 0, 0)];
+    {
+        let chain = MorxChain {
+            default_flags: 0x1F,
+            features: ligature_features.clone(),
+            subtables: vec![
+                msub(0, 0x01, be::morx_rearrangement(&st(6, Lookup::SegmentSingle(vec![(1, 1, 4), (2, 2, 5)]), rows6.clone()), &[(0, 0), (2, 0x8000), (0, 0x2003)]), None),
+                msub(1, 0x02, contextual(Lookup::Single(vec![(1, 4), (2, 5), (3, 6)]), &[Lookup::Trimmed(1, vec![7]), Lookup::Single(vec![(2, 11)])]), None),
+                msub(2, 0x04, ligature(Lookup::Trimmed(3, vec![4, 5])), None),
+                msub(4, 0x08, be::morx_noncontextual(&identity(&[(6, 7)])), None),
+                msub(5, 0x10, be::morx_insertion(&st(6, Lookup::SegmentArray(vec![(1, 2, vec![4, 5])]), rows6.clone()), &[(0, 0, 0xFFFF, 0xFFFF), (2, 0x8000, 0xFFFF, 0xFFFF), (0, 0x0800 | (1 << 5), 0, 0xFFFF)], &[10]), None),
+            ],
+        };
+        v.push(("morx2-all-subtable-types".into(), minimal_font(mn, &mcm, &[(tag(b"morx"), be::morx_table(2, mn, &[chain]))])));
+    }
+    {
+        // version 3 (glyph coverage bitfields), two chains, every lookup table format as a substitution and as a class table
+        let c1 = MorxChain {
+            default_flags: 0x7,
+            features: vec![(0, 1, 0, 0)],
+            subtables: vec![
+                msub(4, 0x1, be::morx_noncontextual(&Lookup::SegmentSingle(vec![(6, 6, 7)])), Some(vec![6])),
+                msub(4, 0x2, be::morx_noncontextual(&Lookup::SegmentArray(vec![(6, 7, vec![6, 1]), (11, 11, vec![2])])), None),
+                msub(4, 0x4, be::morx_noncontextual(&Lookup::Single(vec![(0, 0), (7, 1)])), Some(vec![0, 7])),
+            ],
+        };
+        let c2 = MorxChain {
+            default_flags: 0x3F,
+            features: ligature_features.clone(),
+            subtables: vec![
+                msub(4, 0x01, be::morx_noncontextual(&Lookup::Trimmed(6, vec![7, 6])), None),
+                msub(4, 0x02, be::morx_noncontextual(&Lookup::TrimmedSized(2, 6, vec![7, 6])), Some(vec![6, 7])),
+                msub(4, 0x08, be::morx_noncontextual(&Lookup::TrimmedSized(1, 9, vec![9, 10])), None),
+                msub(0x2000_0001, 0x10, contextual(Lookup::TrimmedSized(2, 1, vec![4, 5, 6]), &[identity(&[(1, 7)]), Lookup::SegmentSingle(vec![(2, 2, 11)])]), Some(vec![1, 2, 3])),
+                msub(0x2000_0002, 0x04, ligature(Lookup::SegmentSingle(vec![(3, 3, 4), (4, 4, 5)])), Some(vec![3, 4, 5])),
+                msub(0x8000_0002, 0x20, ligature(Lookup::Simple((0..mn).map(|g| if g == 3 { 4 } else if g == 4 { 5 } else { 1 }).collect())), None),
+            ],
+        };
+        v.push(("morx3-two-chains-every-lookup-format".into(), minimal_font(mn, &mcm, &[(tag(b"morx"), be::morx_table(3, mn, &[c1, c2]))])));
+    }
+    {
+        // lookup format 10 with 4-byte and 8-byte units (legal unit sizes of the format)
+        let chain = MorxChain {
+            default_flags: 0x3,
+            features: vec![(0, 1, 0, 0)],
+            subtables: vec![msub(4, 0x1, be::morx_noncontextual(&Lookup::TrimmedSized(4, 1, vec![7, 11])), None), msub(4, 0x2, be::morx_noncontextual(&Lookup::TrimmedSized(8, 6, vec![7])), None)],
+        };
+        v.push(("morx2-lookup10-unit4-unit8".into(), minimal_font(mn, &mcm, &[(tag(b"morx"), be::morx_table(2, mn, &[chain]))])));
+    }
+
+    // ---- SVG: one plain and one gzip-compressed document
+    {
+        let plain = br#"<svg xmlns="http://www.w3.org/2000/svg"><g id="glyph1"><rect width="9" height="9"/></g></svg>"#.to_vec();
+        let zipped = be::gzip(br#"<svg xmlns="http://www.w3.org/2000/svg"><g id="glyph2"><circle r="5"/></g><g id="glyph3"><circle r="7"/></g></svg>"#);
+        v.push(("svg-plain+gzip".into(), minimal_font(n, &cm, &[(tag(b"SVG "), be::svg_table(&[(1, 1, plain), (2, 3, zipped)]))])));
+    }
+
+    // ---- name format 1 with language-tag records; STAT with every axis value format
+    let win = |id: u16, s: &str| (3u16, 1u16, 0x0409u16, id, be::utf16be(s));
+    let name1 = {
+        let mut recs = vec![(0u16, 4u16, 0u16, 1u16, be::utf16be("Seed")), (0, 4, 0x8000, 1, be::utf16be("Saat")), (0, 4, 0x8001, 2, be::utf16be("Normal")), (1, 0, 0, 1, b"Seed".to_vec()), (1, 0, 0, 6, b"Seed-Regular".to_vec())];
+        for (id, s) in [(1u16, "Seed"), (2, "Regular"), (4, "Seed Regular"), (6, "Seed-Regular"), (256, "Weight"), (257, "Width"), (258, "Regular"), (259, "Bold"), (260, "Condensed"), (261, "Bold Condensed")] {
+            recs.push(win(id, s));
+        }
+        recs.push((3, 1, 0x8000, 1, be::utf16be("Saat")));
+        be::name_v1(&recs, &["de-AT", "sr-Latn"])
+    };
+    v.push(("name1-langtags".into(), minimal_font(n, &cm, &[(tag(b"name"), name1.clone())])));
+    {
+        let fx = |x: i32| x << 16;
+        let stat = be::stat_table(
+            &[(tag(b"wght"), 256, 0), (tag(b"wght") + 1, 257, 1)],
+            &[
+                AxisValue::F1(0, 0x2, 258, fx(400)),
+                AxisValue::F2(0, 0, 259, fx(700), fx(600), fx(900)),
+                AxisValue::F3(0, 0x2, 258, fx(400), fx(700)),
+                AxisValue::F1(1, 0x2, 258, fx(100)),
+                AxisValue::F2(1, 0, 260, fx(75), fx(50), fx(87)),
+                AxisValue::F4(0, 261, vec![(0, fx(700)), (1, fx(75))]),
+            ],
+            2,
+        );
+        v.push(("stat-formats1-4+fvar+gvar+name1".into(), minimal_font(n, &cm, &[(tag(b"STAT"), stat), (tag(b"fvar"), fvar(&[(100, 400, 900), (50, 100, 125)])), (tag(b"gvar"), be::gvar_empty(2, n)), (tag(b"name"), name1)])));
+    }
+
+    // ---- post 2.0: standard names, custom names in a different order than the glyphs, a shared name
+    {
+        let pn = 40u16;
+        let names: Vec<PostName> = (0..pn)
+            .map(|g| match g {
+                0 => PostName::Standard(0),
+                g if g % 4 == 1 => PostName::Standard(35 + g),
+                g if g % 4 == 2 => PostName::Custom(format!("glyph{:03}.alt", 60 - g)),
+                g if g % 4 == 3 => PostName::Custom("shared".into()),
+                g => PostName::Custom(format!("uni{:04X}", 0x2500 + g)),
+            })
+            .collect();
+        v.push(("post2-40-glyphs-mixed".into(), minimal_font(pn, &cm, &[(tag(b"post"), be::post_v2(&names))])));
+    }
+
+    // ---- kern version 0 with three subtables (pairs, minimum + cross-stream pairs, class based)
+    {
+        let kern = be::kern_v0(&[
+            KernSub::Pairs(0x01, vec![(1, 2, -50), (2, 1, 30), (2, 5, -10)]),
+            KernSub::Pairs(0x01 | 0x02 | 0x04 | 0x08, vec![(1, 2, -20), (1, 5, 0x8000u16 as i16)]),
+            KernSub::Classes(0x01, 1, vec![0, 1], 1, vec![0, 1, 0, 0, 1], vec![vec![-10, 20], vec![30, -40]]),
+        ]);
+        v.push(("kern0-three-subtables".into(), minimal_font(n, &cm, &[(tag(b"kern"), kern)])));
+    }
+
+    // ---- vertical and horizontal metrics with fewer long records than glyphs
+    {
+        let long: Vec<(u16, i16)> = (0..3).map(|g| (1000 + g, 10 + g as i16)).collect();
+        let rest: Vec<i16> = (3..n as i16).map(|g| -g).collect();
+        let mut hhea = tables::hhea(3);
+        hhea[10..12].copy_from_slice(&1002u16.to_be_bytes());
+        v.push(("vmtx-hmtx-3-long-of-8".into(), minimal_font(n, &cm, &[(tag(b"vhea"), be::vhea(3, 1002)), (tag(b"vmtx"), be::long_metrics(&long, &rest)), (tag(b"hhea"), hhea), (tag(b"hmtx"), be::long_metrics(&long, &rest))])));
+    }
+    v
+}
